@@ -131,7 +131,7 @@ def st_history(draw, max_ops):
 
 class Coherence(Sub):
     name = "coherence"
-    examples = {"quick": 2400, "thorough": 48000}
+    examples = {"quick": 2400, "thorough": 19200}
     shards = {"quick": 8, "thorough": 16}
     rule = RULE
 
